@@ -185,6 +185,25 @@ func init() {
 		"sync/atomic.AddInt64":   atomicAdd,
 		"sync/atomic.CompareAndSwapInt32": atomicCAS,
 		"sync/atomic.CompareAndSwapInt64": atomicCAS,
+		"regexp.MustCompile": func(w *Worker, _ *ssa.Function, args []Value, _ ssa.CallInstruction) Value {
+			pat, ok := concreteStr(args[0].(StrV))
+			if !ok {
+				w.fail("regexp.MustCompile of symbolic pattern")
+			}
+			return OpaqueV{"regexp:" + pat}
+		},
+		"(*regexp.Regexp).Split": func(w *Worker, _ *ssa.Function, args []Value, _ ssa.CallInstruction) Value {
+			re, ok := args[0].(OpaqueV)
+			if !ok || re.desc != "regexp: +" {
+				w.fail("regexp Split: only the literal pattern \" +\" is modelled (got %v)", args[0])
+			}
+			n := args[2].(*Term)
+			if !n.IsConst() || sext64(n.Val, 64) != -1 {
+				w.fail("regexp Split: only n = -1 is modelled")
+			}
+			fn := w.P.funcByName(modPath+"/src/zzv", "M_regexp_SplitSpaces")
+			return w.call(&FuncV{fn: fn}, []Value{args[1]}, nil)
+		},
 		"runtime.GC":         nop,
 		"runtime.Gosched":    nop,
 		"runtime.KeepAlive":  nop,
